@@ -506,7 +506,7 @@ def triage_loop_invariants(plan, pid, ex, failed, nat_by, known, smt_dir, timeou
         plain = {k for k, lc in loops.items() if engine.Executor.plain_loop(lc)}
         ok, n_inv = True, 0
         for o in obs:
-            m = re.search(r"/inv-(init|keep):\d+@loop(\d+)", o.id)
+            m = re.search(r"/inv-(init|keep|body-events):\d+@loop(\d+)", o.id)
             if o.kind == "inv" and m and int(m.group(2)) in plain:
                 n_inv += 1
             elif not any(("loop%d" % k) in (o.meta.get("labels") or []) for k in plain):
